@@ -725,6 +725,29 @@ func checkHandlerBlocking(p *load.Program, r *kit.Report, rule string, handlers 
 					bad = append(bad, "blocking send on BitcoinNode."+fl.Name()+" at "+posOf(p, in)+" in "+kit.ShortID(kit.FuncID(f))+": when its receiver has stopped listening the read loop blocks for ever and no later ping is answered")
 				}
 			}
+			// a select without default whose only other arms wait for shutdown blocks just the same
+			if sel, ok := in.(*ssa.Select); ok && sel.Blocking {
+				var sendFld *types.Var
+				timed := false
+				for _, st := range sel.States {
+					if st.Dir == types.SendOnly {
+						if fl, _ := kit.LoadedField(kit.Strip(st.Chan)); fl != nil && ownerStruct(p, fl) == "BitcoinNode" {
+							sendFld = fl
+						}
+					}
+					if st.Dir == types.RecvOnly {
+						if c := callOf(kit.Strip(st.Chan), 0); c != nil && strings.HasPrefix(kit.CallID(c), "time.") {
+							timed = true
+						}
+						if c, ok := kit.Strip(st.Chan).(*ssa.Call); ok && strings.HasPrefix(kit.CallID(c), "time.") {
+							timed = true
+						}
+					}
+				}
+				if sendFld != nil && !timed {
+					bad = append(bad, "select at "+posOf(p, in)+" in "+kit.ShortID(kit.FuncID(f))+" sends on BitcoinNode."+sendFld.Name()+" without a default or timer arm: once its receiver has stopped listening (and the buffer is full) the handler blocks until shutdown, the read loop stops and no later message is answered")
+				}
+			}
 			if c, ok := in.(ssa.CallInstruction); ok {
 				if sc := kit.StaticCallee(c); sc != nil {
 					walk(kit.FuncValueTarget(sc), depth+1)
